@@ -5,4 +5,4 @@ Extraction Language OCaml.
 Extraction "m_c20.ml" uv_trylock_code uv_sem_trywait_code uv_sem_wait_code uv_barrier_wait_code
   uv_cond_timedwait_code uv_cond_init_model stack_size_applied thread_stack_size
   hrtime_of add_wrap add_sat uv_cond_timedwait_model ts_ns
-  binit brun_log bverdict sinit srun_log sverdict passthrough passthrough_pre all_uvfn.
+  binit brun_log bverdict sinit srun_log sverdict passthrough passthrough_pre all_uvfn init_request.
